@@ -40,7 +40,13 @@ def label(c):
     return "n" + str(c)
 
 
-PLAIN = {"mix": mix, "pair": pair, "mkdict": mkdict, "mklist": mklist, "ident": ident, "label": label}
+def mkgrid(c, x, y):
+    from prog_gen import Grid
+
+    return Grid([[c, x], [x, y], [y, c]])
+
+
+PLAIN = {"mix": mix, "pair": pair, "mkdict": mkdict, "mklist": mklist, "ident": ident, "label": label, "mkgrid": mkgrid}
 OPS = {"add": operator.add, "sub": operator.sub, "mul": operator.mul, "lt": operator.lt, "ge": operator.ge,
        "eq": operator.eq, "ne": operator.ne, "neg": operator.neg, "abs": operator.abs,
        "floordiv": operator.floordiv, "mod": operator.mod, "bor": operator.or_}
@@ -57,7 +63,8 @@ class PlainRaises(Exception):
 
 def index(v, path):
     for key in path:
-        v = v[key["i"]] if key["k"] == "i" else v[key["x"]]
+        k = key["k"]
+        v = v[key["i"]] if k == "i" else v[key["x"]] if k == "s" else v[list(key["q"])] if k == "li" else v[tuple(key["q"])]
     return v
 
 
@@ -293,7 +300,9 @@ def build(P, attrs, name="top", is_async=False, mc=2, built=None, _counter=None,
     for p, prm in enumerate(P["params"], 1):
         sig.append(f"p{p}={decode(prm['v'])!r}" if prm["has"] else f"p{p}")
     src = f"def {name}({', '.join(sig)}):\n    return _interp({', '.join(f'p{p}' for p in range(1, len(P['params']) + 1))})\n"
-    env = {"_interp": interp}
+    from prog_gen import Grid
+
+    env = {"_interp": interp, "Grid": Grid}        # a default value may be a grid: its repr is the constructor call
     exec(compile(src, f"<prog {name}>", "exec"), env)  # noqa: S102
     env[name].__qualname__ = name
     if share is not None and name != "top":
